@@ -17,12 +17,17 @@ class IllFormed(Exception):
     pass
 
 
-def _val(t, m):
+def _val(t, m, seen=()):
     if m not in t:
         return 0
-    if t[m].strip() == "":
+    v = t[m].strip()
+    if v == "":
         raise IllFormed(f"#if with no expression / empty operand ({m} is empty)")
-    return int(t[m], 0)
+    if v[0].isalpha() or v[0] == "_":       # the replacement names another macro (or itself: then it stays an identifier, i.e. 0)
+        if v in seen or v == m:
+            return 0
+        return _val(t, v, seen + (m,))
+    return int(v, 0)
 
 
 CONDS = {
@@ -46,7 +51,7 @@ CONDS = {
 def _val0(t, m):
     if m not in t or t[m].strip() == "":
         return 0
-    return int(t[m], 0)
+    return _val(t, m)
 # NB: in `!defined(B) || A` gcc still *parses* A when the left side is true: an empty A is a syntax error.
 _NEEDS_A_SYNTAX = {"!defined(B) || A"}
 
